@@ -432,6 +432,9 @@ template <class A> static void component_case (vp::Ctx& c)
                 const A& ref = (a2 += b);
                 VP_REQUIRE (c, &ref == &a2, "add/compound-ref", "+= does not return *this");
                 SLOTS (c, "add/compound", a2, T (cel (a0, i) + cel (b0, i)), "a+=b");
+                A a3 = a;
+                a3 += a3;
+                SLOTS (c, "add/compound-self", a3, T (cel (a0, i) + cel (a0, i)), "a+=a");
             }
             else
             {
@@ -441,6 +444,9 @@ template <class A> static void component_case (vp::Ctx& c)
                 const A& ref = (a2 -= b);
                 VP_REQUIRE (c, &ref == &a2, "sub/compound-ref", "-= does not return *this");
                 SLOTS (c, "sub/compound", a2, T (cel (a0, i) - cel (b0, i)), "a-=b");
+                A a3 = a;
+                a3 -= a3;
+                SLOTS (c, "sub/compound-self", a3, T (cel (a0, i) - cel (a0, i)), "a-=a");
             }
             SLOTS (c, "operand-modified", a, cel (a0, i), "lhs after binary op");
             SLOTS (c, "operand-modified", b, cel (b0, i), "rhs after op");
@@ -487,6 +493,9 @@ template <class A> static void component_case (vp::Ctx& c)
                     const A& ref = (a2 *= b);
                     VP_REQUIRE (c, &ref == &a2, "cwmul/compound-ref", "*= does not return *this");
                     SLOTS (c, "cwmul/compound", a2, T (cel (a0, i) * cel (b0, i)), "a*=b");
+                    A a3 = a;
+                    a3 *= a3;
+                    SLOTS (c, "cwmul/compound-self", a3, T (cel (a0, i) * cel (a0, i)), "a*=a");
                 }
                 else
                 {
@@ -496,6 +505,9 @@ template <class A> static void component_case (vp::Ctx& c)
                     const A& ref = (a2 /= b);
                     VP_REQUIRE (c, &ref == &a2, "cwdiv/compound-ref", "/= does not return *this");
                     SLOTS (c, "cwdiv/compound", a2, T (cel (a0, i) / cel (b0, i)), "a/=b");
+                    A b3 = b;
+                    b3 /= b3;
+                    SLOTS (c, "cwdiv/compound-self", b3, T (cel (b0, i) / cel (b0, i)), "b/=b");
                 }
                 SLOTS (c, "operand-modified", b, cel (b0, i), "rhs after op");
             }
